@@ -214,7 +214,19 @@ def check_sel(prog: Program, res: Result) -> None:
             and norm(hl_app[0].args[0].func) == f"{norm(lp[0].target)}.make_head"
     res.ob(R, ok, init.qualname, "one head layer per head, in head order, made by that head", "head_layers is not built as one make_head per head in order", init.where)
     hs = [s for s in walk_function(init.node) if isinstance(s, ast.Assign) and norm(s.targets[0]) == "self.heads"]
-    res.ob(R, len(hs) == 1 and norm(hs[0].value) == "get_head(model_type, self.head_configs)", init.qualname, "heads come from get_head(model_type, head_configs)",
+    def _ctor_arg(e):
+        """`self.x` reads as the constructor parameter it was bound to (self.x = x, once)."""
+        if isinstance(e, ast.Attribute) and norm(e.value) == "self":
+            st_ = [s_ for s_ in walk_function(init.node) if isinstance(s_, ast.Assign) and any(norm(t_) == norm(e) for t_ in s_.targets)]
+            if len(st_) == 1 and isinstance(st_[0].value, ast.Name) and st_[0].value.id in init.params:
+                return st_[0].value.id
+        return norm(e) if e is not None else None
+    gh = prog.func("sleap_nn.architectures.model:get_head")
+    okh = len(hs) == 1 and isinstance(hs[0].value, ast.Call) and prog.resolve_call(init, hs[0].value) == gh.qualname
+    if okh:
+        bd = astq.bind_args(gh, hs[0].value)
+        okh = [_ctor_arg(bd.get(p_)) for p_ in gh.pos_params[:2]] == ["model_type", "head_configs"]
+    res.ob(R, okh, init.qualname, "heads come from get_head(model_type, head_configs)",
            "self.heads is not get_head(model_type, self.head_configs)", init.where)
     res.floor(R, 14)
 
@@ -552,6 +564,87 @@ def check_chain(prog: Program, res: Result) -> None:
     res.floor(R, 12)
 
 
+def check_pool_window(prog: Program, res: Result) -> None:
+    """MaxPool2dWithSamePadding.forward computes its 'same' padding only on the FIRST call of a module instance (it then
+    overwrites self.padding with 0).  That state is harmless exactly when the padding is 0 anyway: for inputs whose sides
+    are multiples of the stride this holds iff the pooling window does not exceed the stride (kernel_size <= stride).  So, as
+    long as forward keeps that write, every construction site in sleap_nn.architectures must pass kernel_size <= stride
+    (both resolved to constants; a stride that is a constructor parameter is resolved over its default and all call sites).
+    An overlapping window (kernel 3, stride 2) gives the right shape on the first forward and a size mismatch in the skip
+    concatenation on every later one: the output depends on earlier calls."""
+    R = "C14-pool"
+    ci = prog.cls("sleap_nn.architectures.common:MaxPool2dWithSamePadding")
+    fwd = ci.methods.get("forward")
+    if fwd is None:
+        raise AnalysisError("MaxPool2dWithSamePadding.forward vanished")
+    res.touch(fwd)
+    writes = sorted({norm(t) for st in walk_function(fwd.node) if isinstance(st, (ast.Assign, ast.AugAssign, ast.AnnAssign)) for t in astq.stmt_targets(st)
+                     if isinstance(t, ast.Attribute) and norm(t.value) == "self"})
+    res.ob(R, writes in ([], ["self.padding"]), fwd.qualname, "forward writes at most self.padding", f"MaxPool2dWithSamePadding.forward writes {writes}: the result of a call depends on earlier calls", fwd.where)
+    if writes != ["self.padding"]:
+        return   # stateless pooling: any window is fine
+
+    def const_int(e, fi, at):
+        x = astq.expand_at(fi.node, e, at) if e is not None else None
+        v = astq.const_value(x) if x is not None else ...
+        return v if isinstance(v, int) and not isinstance(v, bool) else None
+
+    def param_values(fi, name):
+        """all constants a constructor parameter can take: its default and the argument at every call site of the class"""
+        owner = fi.cls
+        if owner is None or fi.name != "__init__" or name not in fi.params:
+            return None
+        vals = []
+        d = fi.param_defaults().get(name)
+        if d is not None:
+            v = astq.const_value(d)
+            if not (isinstance(v, int) and not isinstance(v, bool)):
+                return None
+            vals.append(v)
+        for g in prog.all_functions():
+            if not g.module.name.startswith("sleap_nn."):
+                continue
+            for c in walk_function(g.node):
+                if isinstance(c, ast.Call) and norm(c.func).split(".")[-1] == owner.name:
+                    a = astq.bind_args(fi, c, skip_self=True).get(name)
+                    if a is None:
+                        continue
+                    v = const_int(a, g, enclosing_stmt(c))
+                    if v is None:
+                        return None
+                    vals.append(v)
+        return vals or None
+
+    n = 0
+    for fi in prog.all_functions():
+        if not fi.module.name.startswith("sleap_nn.architectures"):
+            continue
+        for c in walk_function(fi.node):
+            if not (isinstance(c, ast.Call) and norm(c.func).split(".")[-1] == "MaxPool2dWithSamePadding"):
+                continue
+            n += 1
+            res.touch(fi)
+            at = enclosing_stmt(c)
+            k_e, s_e = astq.call_arg(c, 0, "kernel_size"), astq.call_arg(c, 1, "stride")
+            k = const_int(k_e, fi, at)
+            s_vals = None
+            if s_e is None:
+                s_vals = [k] if k is not None else None       # nn.MaxPool2d: stride defaults to kernel_size
+            else:
+                sv = const_int(s_e, fi, at)
+                if sv is not None:
+                    s_vals = [sv]
+                else:
+                    sx = astq.expand_at(fi.node, s_e, at)
+                    s_vals = param_values(fi, sx.id) if isinstance(sx, ast.Name) else None
+            ok = k is not None and s_vals is not None and all(k <= v for v in s_vals)
+            res.ob(R, ok, fi.qualname, f"pooling window {k} <= stride {sorted(set(s_vals)) if s_vals else '?'}",
+                   f"`{short(c, 70)}` builds a pooling layer whose window (`{short(k_e, 20) if k_e is not None else '?'}`) is not provably <= its stride "
+                   f"(`{short(s_e, 20) if s_e is not None else 'default'}`): its 'same' padding is non-zero, but MaxPool2dWithSamePadding.forward only applies it on the first call "
+                   "(self.padding = 0 afterwards), so the second forward of the same model returns a different spatial size", f"{fi.module.relpath}:{c.lineno}")
+    res.floor(R, 3)
+
+
 def check(prog: Program, res: Result) -> None:
     check_state(prog, res)
     check_pair(prog, res)
@@ -562,6 +655,7 @@ def check(prog: Program, res: Result) -> None:
     check_unet_stride(prog, res)
     check_layout(prog, res)
     check_chain(prog, res)
+    check_pool_window(prog, res)
     res.assumptions.append("spatial shape arithmetic over the configuration grid (Conv2d/Upsample/PatchMerging size rules) is not decided")
 
 
